@@ -94,6 +94,7 @@ type FatGen struct {
 	Handles  bool
 	Invalid  bool
 	OneHandlePerDir bool
+	SameFile        bool // also open a second and third handle on a file that already has one
 	Names    []string
 	Dirs     []string
 	NoGap    bool
@@ -397,6 +398,10 @@ func (g *FatGen) Next(d *fsdrive.Driver) fsdrive.Op {
 				p := existing()
 				if p == "" || r.Chance(0.3) {
 					p = newFile()
+				}
+				if hp := d.HandlePaths(); g.SameFile && len(hp) > 0 && r.Chance(0.5) {
+					// another handle on a file that is already open: each handle keeps its own idea of the size
+					return fsdrive.Op{Kind: "open", Path: gen.Pick(r, hp), H: h, Flag: os.O_RDWR}
 				}
 				if g.OneHandlePerDir {
 					dir := ""
@@ -833,7 +838,7 @@ func runFatCase(prop string, c core.Case, env *core.Env) core.Result {
 			reopenCmp("final")
 		}
 	case "random":
-		g := &FatGen{R: gen.New(c.Seed), Cluster: cs, MaxFile: fc.MaxFile, Handles: fc.Handles, Invalid: true,
+		g := &FatGen{R: gen.New(c.Seed), Cluster: cs, MaxFile: fc.MaxFile, Handles: fc.Handles, Invalid: true, SameFile: prop == "C08",
 			OneHandlePerDir: has(fc.Avoid, "two-handles-one-directory"), NoGap: has(fc.Avoid, "gap-writes"), NoAlias: has(fc.Avoid, "short-name-alias"), NoNonASCII: has(fc.Avoid, "non-ascii-names")}
 		if g.MaxFile == 0 {
 			g.MaxFile = 40 * cs
@@ -856,6 +861,48 @@ func runFatCase(prop string, c core.Case, env *core.Env) core.Result {
 	case "regrow":
 		drv.Light = true
 		fatRegrow(fr, fs, cs, step, reopenCmp)
+	case "twohandles":
+		// several handles on one file, each with the size it saw when it was opened: one grows (or shrinks the
+		// need of) the file, another then writes inside / at the end of / beyond the size it remembers
+		r := gen.New(c.Seed)
+		for round := 0; round < fc.Steps; round++ {
+			name := fmt.Sprintf("d%d/shared%02d.bin", round%2, round)
+			if round < 2 {
+				if !step(fsdrive.Op{Kind: "mkdir", Path: fmt.Sprintf("d%d", round)}) {
+					break
+				}
+			}
+			s0 := []int{1, cs - 1, cs, 3*cs + 7, 8 * cs}[round%5]
+			ops := []fsdrive.Op{
+				{Kind: "write", Path: name, Len: s0, DSeed: uint64(round + 1)},
+				{Kind: "open", Path: name, H: 0, Flag: os.O_RDWR},
+				{Kind: "open", Path: name, H: 1, Flag: os.O_RDWR},
+				{Kind: "hseek", H: 1, Off: int64(s0)},
+				{Kind: "hwrite", H: 1, Len: (1+r.Intn(40))*cs + r.Intn(cs), DSeed: r.Uint64()}, // grows by at least a cluster
+			}
+			switch round % 3 {
+			case 0: // in place, inside the remembered size
+				ops = append(ops, fsdrive.Op{Kind: "hseek", H: 0, Off: 0}, fsdrive.Op{Kind: "hwrite", H: 0, Len: max(1, s0/2), DSeed: r.Uint64()})
+			case 1: // exactly up to the remembered end
+				ops = append(ops, fsdrive.Op{Kind: "hseek", H: 0, Off: int64(s0 / 2)}, fsdrive.Op{Kind: "hwrite", H: 0, Len: s0 - s0/2, DSeed: r.Uint64()})
+			case 2: // beyond the remembered end, inside the real one
+				ops = append(ops, fsdrive.Op{Kind: "hseek", H: 0, Off: int64(s0)}, fsdrive.Op{Kind: "hwrite", H: 0, Len: cs/2 + 1, DSeed: r.Uint64()})
+			}
+			ops = append(ops, fsdrive.Op{Kind: "open", Path: name, H: 2, Flag: os.O_RDWR}, fsdrive.Op{Kind: "hwrite", H: 2, Len: 5, DSeed: 9},
+				fsdrive.Op{Kind: "hclose", H: 1}, fsdrive.Op{Kind: "hclose", H: 0}, fsdrive.Op{Kind: "hclose", H: 2})
+			ok := true
+			for _, op := range ops {
+				if !step(op) {
+					ok = false
+					break
+				}
+			}
+			if !ok {
+				break
+			}
+		}
+		res.Mark("several handles on one file with different remembered sizes")
+		drv.CloseAll()
 	case "exhaustive":
 		// handled by the caller (many short histories on fresh volumes); see c01Exhaustive
 	}
